@@ -201,6 +201,12 @@ class C05(Prop):
         if pfx and rng.random() < 0.5:
             k0 = keys[0]
             keys.append(pfx + (k0.encode() if isinstance(k0, str) else k0))   # a key that starts with the prefix bytes
+        if rng.random() < 0.2:
+            # a server that refuses `set` for some keys with NOT_STORED (legal: "not stored, but not because of an
+            # error"): the only way a single server makes set()/set_many() report a key as failed
+            rk = rng.sample(keys, rng.randint(1, min(2, len(keys))))
+            nodes[0]["opts"] = dict(nodes[0].get("opts") or {},
+                                    refuse_set=[E(pfx + (k.encode() if isinstance(k, str) else k)) for k in rk])
         steps = []
         gets_steps = []   # (step index, key, kind)
         n = rng.randint(5, 40)
@@ -400,6 +406,10 @@ class C05(Prop):
                 p["too-large-rejected"] = 1
             if (st.get("k") or {}).get("noreply") is True and c.sent:
                 p["noreply-effect-checked"] = 1
+            if c.method == "set_many" and c.outcome == "return" and isinstance(c.value, list) and c.value:
+                p["set_many-partial-failure"] = 1
+        if getattr(res.extra.get("model"), "expired_seen", 0):
+            p["expired-item-missed"] = 1
         for st in scn["steps"]:
             if st["t"] == "direct":
                 p["peer-side-change"] = 1
